@@ -222,6 +222,7 @@ class FrameQueueFrag(FrameQueue):
                 return True
             if (
                 self._frags.header.from_node is not None  # if not just initialized
+                and frame.header.from_node == self._frags.header.from_node
                 and frame.header.to_node == self._frags.header.to_node
                 and frame.header.frame_id == self._frags.header.frame_id
             ):
